@@ -15,9 +15,12 @@ MANIFEST = {
     "level": "other",
     "technique": "sampled cross product of ground/evaluate options on generated programs, each run compared with the Lean "
                  "specification Sem; builder-option neutrality is the Lean theorem C11_addCompound_spec (all option records)",
-    "text": "Partial: option plumbing is tied by correspondence on sampled option vectors; the Lean part is the builder "
-            "theorem for every option record (C11) and the specification. Evidence propagation (formula.propagate) is "
-            "compared end-to-end, its soundness theorem is not yet proved.",
+    "text": "Option plumbing is tied by correspondence on sampled option vectors (partial: sampled, each run compared with "
+            "the Lean specification). Lean theorems: evidence propagation (model of LogicFormula.propagate, "
+            "get_evidence_value, the engine lookup and the ConstraintAD evidence branch) is sound for every processing order, "
+            "terminates within the stated fuel and raises 'inconsistent' only for unsatisfiable evidence "
+            "(C06_propagate_sound, _inconsistent_sound, _terminates, C06_adAddEv_sound, C06_evidence_spelling); builder "
+            "options: C11_addCompound_spec for every option record.",
     "note": "Trusted: harness. `keep_all` reports failed instances with probability 0: canonicalised as unreported.",
     "design_ref": "DESIGN.md §6 C06",
 }
@@ -46,6 +49,10 @@ def variants(P, seed):
 
 
 def run(ctx):
+    # evidence propagation: Lean model of LogicFormula.propagate with soundness / termination theorems for every
+    # processing order, exact correspondence with the real method (incl. the real pop order) and a truth-table oracle
+    import c06_propagate
+    c06_propagate.check_propagate(ctx)
     N[0] = ctx.budget(6, 24)
     ctx.rule = ("generated programs x sampled option vectors {propagate_evidence, propagate_weights, label_all, "
                 "avoid_name_clash, keep_order, keep_all, keep_duplicates, hide_builtins} x {default, prob, log} semiring x "
